@@ -1032,8 +1032,42 @@ func ruleNUMAUTH(c *Ctx) []Obligation {
 		}
 		sort.SliceStable(as, func(i, j int) bool { return funcKey(as[i].fn) < funcKey(as[j].fn) })
 		perPkg := map[string]int{}
+		// the order in which a routine visits the module's / function's lists: the fields it
+		// ranges over, in source order
+		traversal := func(fn *types.Func) string {
+			fd := c.funcDecl(fn)
+			if fd == nil || fd.Body == nil {
+				return "?"
+			}
+			info := c.declPkg[fd].TypesInfo
+			var parts []string
+			ast.Inspect(fd.Body, func(n ast.Node) bool {
+				if rs, ok := n.(*ast.RangeStmt); ok {
+					if se, ok := unparen(rs.X).(*ast.SelectorExpr); ok {
+						if sel, ok := info.Selections[se]; ok && sel.Kind() == types.FieldVal {
+							parts = append(parts, se.Sel.Name)
+						}
+					}
+				}
+				return true
+			})
+			return strings.Join(parts, ",")
+		}
+		refTraversal := ""
+		for _, a := range as {
+			if funcKey(a.fn) == ref {
+				refTraversal = traversal(a.fn)
+			}
+		}
 		for _, a := range as {
 			o := Obligation{Key: fmt.Sprintf("%s numbers %s IDs", funcKey(a.fn), space), Pos: c.pos(a.pos), Verdict: OK, Detail: "the authority for " + space + " IDs"}
+			if funcKey(a.fn) != ref && ref != "" && a.fn.Pkg().Path() == pkgIR && traversal(a.fn) == refTraversal && refTraversal != "" && refTraversal != "?" {
+				// a second routine of the printer's own package that visits the same lists in the
+				// same order (a renumbering variant of the validating routine) hands out the same numbers
+				o.Detail = fmt.Sprintf("numbers %s IDs in the same traversal order as %s (%s)", space, ref, refTraversal)
+				obs = append(obs, o)
+				continue
+			}
 			if funcKey(a.fn) != ref && ref != "" {
 				// keyed by package and ordinal, not by the function the routine happens to live in:
 				// a recorded finding follows the code through a rename or an inlining, and a further
